@@ -34,11 +34,13 @@ type ATTx struct {
 // case 2. not need flush undolog, is XA mode, do local transaction commit
 // case 3. need run AT transaction
 func (tx *ATTx) Commit() error {
+	defer tx.tx.conn.resetAfterTx()
 	tx.tx.beforeCommit()
 	return tx.commitOnAT()
 }
 
 func (tx *ATTx) Rollback() error {
+	defer tx.tx.conn.resetAfterTx()
 	err := tx.tx.Rollback()
 	if err != nil {
 
